@@ -2,7 +2,7 @@
    chains of any length.  Each theorem runs the model symbolically: every write is to a token shown
    to exist, every read is resolved through the write history. *)
 From Coq Require Import List NArith Bool Lia.
-From MMD.lib Require Import Bytes.
+From MMD.lib Require Import Bytes BytesFacts.
 From MMD.model Require Import TokenHeap.
 From MMD.proofs Require Import TokenHeapFacts.
 Import ListNotations.
@@ -45,7 +45,7 @@ Ltac eqbs := repeat first
   | rewrite andb_false_r | rewrite andb_true_r ].
 Ltac rdeval := rdrw; eqbs.
 
-Ltac vld := unfold valid, Nlen in *;
+Ltac vld := unfold valid, fresh, Nlen in *;
   repeat match goal with L : length _ = _ |- _ => rewrite L in * end;
   try rewrite app_length in *; cbn [length] in *; lia.
 
@@ -151,3 +151,611 @@ Proof.
     symmetry. apply last_app_cons.
   - intros j g F1 F2 F3. rdrw. rewrite !if_not by assumption. reflexivity.
 Qed.
+
+(* ---- conditional writes with a uniform description of the result *)
+
+Lemma opt_wr (z : bool) h i f v : (z = false -> valid h i) ->
+  exists h', (if z then Some h else wr h i f v) = Some h' /\ length h' = length h /\
+             forall j g, rd h' j g = if negb z && ((j =? i) && feqb g f) then Some v else rd h j g.
+Proof.
+  intro V. destruct z; cbn [negb andb].
+  - exists h. repeat split; reflexivity.
+  - destruct (wr_ok h i f v (V eq_refl)) as (h' & E & L & R). exists h'. repeat split; assumption.
+Qed.
+
+Lemma hd_app_cons {A} (l : list A) x r d : hd d (l ++ x :: r) = hd x l.
+Proof. destruct l; reflexivity. Qed.
+
+Lemma nodup_mid {A} (a : list A) x b : NoDup (a ++ x :: b) -> ~ In x a /\ ~ In x b /\ NoDup (a ++ b).
+Proof.
+  intro H. pose proof (NoDup_remove_1 _ _ _ H). pose proof (NoDup_remove_2 _ _ _ H).
+  rewrite in_app_iff in *. tauto.
+Qed.
+
+(* ---- token_prune_graft(first, last, type) with first <> last: the tokens first .. last of a chain
+   become the children of a container that takes the place (and identity) of first *)
+
+Section Graft.
+Variables (h : heap) (a m b : list N) (fi la ctype mm : N).
+Let L := a ++ fi :: m ++ la :: b.
+Hypothesis HS : seg h 0 L 0.
+Hypothesis ND : NoDup L.
+Hypothesis Hmt : rd h fi Fmt = Some mm.
+Hypothesis Hmm : mm = 0 \/ (valid h mm /\ mm <> fi).
+
+Let c := fresh h.
+Let nm := hd la m.
+Let nb := hd 0 b.
+
+Lemma graft_pieces :
+  seg h 0 a fi /\ valid h fi /\ rd h fi Fpv = Some (List.last a 0) /\ rd h fi Fnx = Some nm /\
+  seg h fi m la /\ valid h la /\ rd h la Fpv = Some (List.last m fi) /\ rd h la Fnx = Some nb /\ seg h la b 0.
+Proof.
+  unfold L in HS. apply seg_app in HS. cbn [hd] in HS. destruct HS as [Sa S1].
+  cbn [seg] in S1. destruct S1 as (Vf & Pf & Nf & S2). rewrite hd_app_cons in Nf.
+  apply seg_app in S2. cbn [hd] in S2. destruct S2 as [Sm S3].
+  cbn [seg] in S3. destruct S3 as (Vl & Pl & Nl & Sb).
+  repeat (split; [assumption|]). assumption.
+Qed.
+
+Lemma graft_distinct :
+  fi <> la /\ ~ In fi a /\ ~ In fi m /\ ~ In fi b /\ ~ In la a /\ ~ In la m /\ ~ In la b /\
+  (forall x, In x a -> ~ In x m /\ ~ In x b) /\ (forall x, In x m -> ~ In x b) /\ NoDup a /\ NoDup m /\ NoDup b.
+Proof.
+  unfold L in ND. apply nodup_app in ND. destruct ND as (Na & N1 & D1).
+  apply NoDup_cons_iff in N1. destruct N1 as [F1 N2].
+  apply nodup_app in N2. destruct N2 as (Nm & N3 & D2).
+  apply NoDup_cons_iff in N3. destruct N3 as [F3 Nb].
+  rewrite in_app_iff in F1. cbn [In] in F1.
+  assert (HA : forall x, In x a -> x <> fi /\ ~ In x m /\ x <> la /\ ~ In x b).
+  { intros x Hx. pose proof (D1 x Hx) as Q. cbn [In] in Q. rewrite in_app_iff in Q. cbn [In] in Q.
+    repeat split; intro; apply Q; subst; tauto. }
+  assert (HM : forall x, In x m -> x <> la /\ ~ In x b).
+  { intros x Hx. pose proof (D2 x Hx) as Q. cbn [In] in Q. split; intro; apply Q; subst; tauto. }
+  split; [intro; subst; tauto|].
+  split; [intro Hx; destruct (HA _ Hx); tauto|].
+  split; [tauto|]. split; [tauto|].
+  split; [intro Hx; destruct (HA _ Hx) as (_ & _ & ? & _); tauto|].
+  split; [intro Hx; destruct (HM _ Hx); tauto|].
+  split; [exact F3|].
+  split; [intros x Hx; destruct (HA _ Hx); tauto|].
+  split; [intros x Hx; destruct (HM _ Hx); tauto|].
+  tauto.
+Qed.
+
+
+(* the mate fix-up and the tail fix-up of the function, each with a uniform description *)
+Lemma mate_block h0 (z : bool) :
+  valid h0 fi -> (z = false -> valid h0 mm) -> rd h0 c Fmt = Some mm -> c <> fi ->
+  exists h', (if z then Some h0 else
+              let? h1 := wr h0 fi Fmt 0 in let? cm := rd h1 c Fmt in wr h1 cm Fmt c) = Some h' /\
+             length h' = length h0 /\
+             forall j g, rd h' j g = if negb z && ((j =? mm) && feqb g Fmt) then Some c
+                                     else if negb z && ((j =? fi) && feqb g Fmt) then Some 0 else rd h0 j g.
+Proof.
+  intros Vf Vm Hc Ncf. destruct z; cbn [negb andb].
+  - exists h0. repeat split; reflexivity.
+  - destruct (wr_ok h0 fi Fmt 0 Vf) as (h1 & E1 & L1 & R1). rewrite E1. cbn [obind].
+    assert (X : rd h1 c Fmt = Some mm) by (rewrite R1; eqbs; exact Hc).
+    rewrite X. cbn [obind].
+    destruct (wr_ok h1 mm Fmt c) as (h2 & E2 & L2 & R2); [apply (valid_len h0); [exact L1|apply Vm; reflexivity]|].
+    exists h2. split; [exact E2|]. split; [congruence|].
+    intros j g. rewrite R2, R1. reflexivity.
+Qed.
+
+Lemma tail_block h0 (z : bool) w :
+  valid h0 fi -> (z = true -> head_of h0 fi = Some w /\ valid h0 w) ->
+  exists h', (if z then let? w := head_of h0 fi in let? h1 := wr h0 fi Ftl fi in wr h1 w Ftl fi else Some h0) = Some h' /\
+             length h' = length h0 /\
+             forall j g, rd h' j g = if z && ((j =? w) && feqb g Ftl) then Some fi
+                                     else if z && ((j =? fi) && feqb g Ftl) then Some fi else rd h0 j g.
+Proof.
+  intros Vf Hw. destruct z; cbn [andb].
+  - destruct (Hw eq_refl) as [E Vw]. rewrite E. cbn [obind].
+    destruct (wr_ok h0 fi Ftl fi Vf) as (h1 & E1 & L1 & R1). rewrite E1. cbn [obind].
+    destruct (wr_ok h1 w Ftl fi) as (h2 & E2 & L2 & R2); [apply (valid_len h0); assumption|].
+    exists h2. split; [exact E2|]. split; [congruence|].
+    intros j g. rewrite R2, R1. reflexivity.
+  - exists h0. repeat split; reflexivity.
+Qed.
+
+
+Lemma last_nonempty_default {A} (l : list A) d d' : l <> [] -> List.last l d = List.last l d'.
+Proof. destruct l as [|x l]; [congruence|]. intros _. apply last_cons_default. Qed.
+
+Theorem prune_graft_spec :
+  rd h (hd fi a) Ftl = Some (List.last b la) ->
+  exists h', token_prune_graft h fi la ctype = Some h' /\ length h' = S (length h) /\
+    (* the outer chain: first .. last replaced by first *)
+    seg h' 0 (a ++ fi :: b) 0 /\ rd h' (hd fi a) Ftl = Some (List.last b fi) /\
+    (* the container and its children: a copy of first, then the tokens up to last *)
+    rd h' fi Fch = Some c /\ seg h' 0 (c :: m ++ [la]) 0 /\ rd h' c Ftl = Some la /\
+    rd h' fi Fty = Some ctype /\ rd h' fi Fst = rd h fi Fst /\
+    (forall s l s0, rd h la Fst = Some s -> rd h la Fln = Some l -> rd h fi Fst = Some s0 ->
+                    rd h' fi Fln = Some (wsub (wadd s l) s0)) /\
+    (forall g, g = Fty \/ g = Fst \/ g = Fln \/ g = Fch -> rd h' c g = rd h fi g) /\
+    (* mates *)
+    rd h' fi Fmt = Some 0 /\ rd h' c Fmt = Some mm /\ (mm <> 0 -> rd h' mm Fmt = Some c) /\
+    (* everything else is untouched *)
+    (forall j g, j <> fi -> j <> la -> j <> nm -> j <> nb -> j <> hd fi a -> j <> mm -> j <> c -> rd h' j g = rd h j g).
+Proof.
+  intro Htl.
+  destruct graft_pieces as (Sa & Vf & Pf & Nf & Sm & Vl & Pl & Nl & Sb).
+  destruct graft_distinct as (Nfl & Fa & Fm & Fb & La & Lm & Lb & Da & Dm & NDa & NDm & NDb).
+  assert (Vnm : valid h nm).
+  { unfold nm. destruct m as [|y m']; [exact Vl|]. cbn [hd]. cbn [seg] in Sm. tauto. }
+  assert (Nnm_f : nm <> fi).
+  { unfold nm. destruct m as [|y m']; cbn [hd]; [congruence|]. intro X. apply Fm. subst. left; reflexivity. }
+  assert (Vnb : nb <> 0 -> valid h nb).
+  { unfold nb. destruct b as [|y b']; cbn [hd]; [congruence|]. intros _. cbn [seg] in Sb. tauto. }
+  assert (Ncf : c <> fi) by (apply not_eq_sym, valid_neq_fresh; exact Vf).
+  assert (Ncl : c <> la) by (apply not_eq_sym, valid_neq_fresh; exact Vl).
+  assert (Ncnm : c <> nm) by (apply not_eq_sym, valid_neq_fresh; exact Vnm).
+  assert (Vmm : (mm =? 0) = false -> valid h mm).
+  { intro E. apply N.eqb_neq in E. destruct Hmm as [|[? _]]; [contradiction|assumption]. }
+  assert (Nmmf : (mm =? 0) = false -> mm <> fi).
+  { intro E. apply N.eqb_neq in E. destruct Hmm as [|[_ ?]]; [contradiction|assumption]. }
+  unfold token_prune_graft.
+  destruct (N.eqb_spec fi 0) as [Z|_]; [destruct Vf; contradiction|].
+  destruct (N.eqb_spec la 0) as [Z|_]; [destruct Vl; contradiction|]. cbn [orb].
+  rewrite Nl. cbn [obind].
+  destruct (tokat_valid h fi Vf) as [tf Etf].
+  unfold token_copy. rewrite Etf. cbn [obind]. fold c.
+  pose proof (rd_alloc h tf) as R0.
+  assert (Gf : forall g, rd h fi g = Some (getf tf g)) by (intro g; apply tokat_rd; exact Etf).
+  assert (L0 : length (h ++ [tf]) = S (length h)) by (rewrite app_length; cbn; lia).
+  assert (Vc0 : valid (h ++ [tf]) c) by apply valid_app_new.
+  set (h0 := h ++ [tf]) in *.
+  wr_step h1 L1 R1; [exact Vc0|].
+  wr_step h2 L2 R2; [vld|].
+  assert (X : rd h2 c Fnx = Some nm).
+  { rdeval. fold c. eqbs. rewrite <- Gf. exact Nf. }
+  rewrite X. cbn [obind]. clear X.
+  destruct (N.eqb_spec nm 0) as [Z|_]; [destruct Vnm; contradiction|].
+  wr_step h3 L3 R3; [vld|].
+  destruct (N.eqb_spec fi la) as [Z|_]; [contradiction|].
+  wr_step h4 L4 R4; [vld|].
+  wr_step h5 L5 R5; [vld|].
+  fold c in R0.
+  destruct (rd_valid h la Fst Vl) as [ls Els]. destruct (rd_valid h la Fln Vl) as [ll Ell].
+  destruct (rd_valid h fi Fst Vf) as [fs Efs].
+  replace (rd h5 la Fst) with (Some ls) by (rdeval; symmetry; exact Els).
+  replace (rd h5 la Fln) with (Some ll) by (rdeval; symmetry; exact Ell).
+  replace (rd h5 fi Fst) with (Some fs) by (rdeval; symmetry; exact Efs).
+  cbn [obind].
+  wr_step h6 L6 R6; [vld|].
+  wr_step h7 L7 R7; [vld|].
+  replace (rd h7 fi Fmt) with (Some mm) by (rdeval; symmetry; exact Hmt).
+  cbn [obind].
+  destruct (mate_block h7 (mm =? 0)) as (h8 & E8 & L8 & R8).
+  { vld. } { intro E. specialize (Vmm E). vld. } { rdeval. rewrite <- Gf. exact Hmt. } { exact Ncf. }
+  rewrite E8. cbn [obind]. clear E8.
+  wr_step h9 L9 R9; [vld|].
+  destruct (opt_wr (nb =? 0) h9 nb Fpv fi) as (h10 & E10 & L10 & R10).
+  { intro E. apply N.eqb_neq in E. specialize (Vnb E). vld. }
+  rewrite E10. cbn [obind]. clear E10.
+  (* membership facts *)
+  assert (Nb_cases : nb = 0 \/ In nb b) by (unfold nb; destruct b; [left; reflexivity|right; left; reflexivity]).
+  assert (Nm_cases : nm = la /\ m = [] \/ In nm m) by (unfold nm; destruct m; [left; split; reflexivity|right; left; reflexivity]).
+  assert (Nfnb : fi <> nb) by (intro X; destruct Nb_cases as [Z|I]; [destruct Vf; congruence|apply Fb; rewrite X; exact I]).
+  assert (Nlnb : la <> nb) by (intro X; destruct Nb_cases as [Z|I]; [destruct Vl; congruence|apply Lb; rewrite X; exact I]).
+  assert (Ncnb : c <> nb).
+  { intro X. destruct Nb_cases as [Z|I]; [unfold c, fresh in X; lia|].
+    apply (fresh_not_valid h). fold c. rewrite X. eapply seg_valid; [exact Sb|exact I]. }
+  assert (Nnmnb : nm <> nb).
+  { intro X. destruct Nm_cases as [[E _]|I]; [congruence|].
+    destruct Nb_cases as [Z|I']; [destruct Vnm; congruence|]. apply (Dm nm I). rewrite X. exact I'. }
+  assert (Ha : forall y, In y a -> y <> c /\ y <> fi /\ y <> la /\ y <> nm /\ y <> nb).
+  { intros y Hy. pose proof (seg_valid _ _ _ _ _ Sa Hy) as Vy.
+    split; [apply valid_neq_fresh; exact Vy|]. split; [intro X; rewrite X in Hy; contradiction|]. split; [intro X; rewrite X in Hy; contradiction|].
+    destruct (Da y Hy) as [D1 D2]. split.
+    - intro X. destruct Nm_cases as [[E _]|I]; [rewrite X, E in Hy; contradiction|rewrite <- X in I; contradiction].
+    - intro X. destruct Nb_cases as [Z|I]; [destruct Vy as [Vy0 _]; apply Vy0; congruence|rewrite <- X in I; contradiction]. }
+  assert (Hm' : forall y, In y m -> y <> c /\ y <> fi /\ y <> la /\ y <> nb).
+  { intros y Hy. pose proof (seg_valid _ _ _ _ _ Sm Hy) as Vy.
+    split; [apply valid_neq_fresh; exact Vy|]. split; [intro X; rewrite X in Hy; contradiction|]. split; [intro X; rewrite X in Hy; contradiction|].
+    intro X. destruct Nb_cases as [Z|I]; [destruct Vy as [Vy0 _]; apply Vy0; congruence|]. apply (Dm y Hy). rewrite X. exact I. }
+  assert (Hb : forall y, In y b -> y <> c /\ y <> fi /\ y <> la /\ y <> nm).
+  { intros y Hy. pose proof (seg_valid _ _ _ _ _ Sb Hy) as Vy.
+    split; [apply valid_neq_fresh; exact Vy|]. split; [intro X; rewrite X in Hy; contradiction|]. split; [intro X; rewrite X in Hy; contradiction|].
+    intro X. destruct Nm_cases as [[E _]|I]; [rewrite X, E in Hy; contradiction|]. apply (Dm nm I). rewrite <- X. exact Hy. }
+  replace (rd h10 fi Fnx) with (Some nb) by (rdeval; reflexivity).
+  cbn [obind].
+  assert (Sa10 : seg h10 0 a fi).
+  { eapply seg_frame; [| |exact Sa]; [intros y _ Vy; vld|].
+    intros y Hy. destruct (Ha y Hy) as (? & ? & ? & ? & ?). split; rdeval; reflexivity. }
+  assert (Pf10 : rd h10 fi Fpv = Some (List.last a 0)) by (rdeval; exact Pf).
+  destruct (tail_block h10 (nb =? 0) (hd fi a)) as (h11 & E11 & L11 & R11).
+  { vld. }
+  { intros _. split.
+    - unfold head_of. replace (hd fi a) with (hd fi a) by reflexivity.
+      apply (walk_prev h10 (fuel_of h10) a fi [] nb).
+      + apply seg_app. split; [exact Sa10|]. cbn [seg]. split; [vld|]. split; [exact Pf10|]. split; [rdeval; reflexivity|exact I].
+      + unfold fuel_of. pose proof (seg_length _ _ _ _ NDa Sa). vld.
+    - destruct a as [|y a']; cbn [hd]; [vld|]. cbn [seg] in Sa. destruct Sa as (Vy & _). vld. }
+  rewrite E11. clear E11.
+  exists h11. split; [reflexivity|]. split; [vld|].
+  assert (VV : forall y, valid h y -> valid h11 y) by (intros y Vy; vld).
+  assert (Vc : valid h11 c) by vld.
+  (* 1. the outer chain *)
+  split.
+  { apply seg_app. cbn [hd]. split.
+    - eapply seg_frame; [| |exact Sa]; [intros y _ Vy; apply VV, Vy|].
+      intros y Hy. destruct (Ha y Hy) as (? & ? & ? & ? & ?). split; rdeval; reflexivity.
+    - cbn [seg]. split; [apply VV, Vf|]. split; [rdeval; exact Pf|]. split; [rdeval; reflexivity|].
+      destruct b as [|y b']; [exact I|].
+      eapply seg_change_pv; [exact Sb| | | |].
+      + intros z _ Vz. apply VV, Vz.
+      + change y with nb. assert (Z : (nb =? 0) = false) by (apply N.eqb_neq; intro Z; apply Vnb in Z; [|unfold nb; cbn; destruct (seg_valid _ _ _ _ _ Sb (or_introl eq_refl)); assumption]; unfold nb in *; cbn [hd] in *; destruct Z; contradiction).
+        rdeval. rewrite Z. cbn [negb andb]. rdeval. reflexivity.
+      + destruct (Hb y (or_introl eq_refl)) as (? & ? & ? & ?). rdeval. reflexivity.
+      + intros z Hz. destruct (Hb z (or_intror Hz)) as (? & ? & ? & ?).
+        assert (z <> nb) by (unfold nb; cbn [hd]; intro X; rewrite X in Hz; inversion NDb; contradiction).
+        split; rdeval; reflexivity. }
+  assert (Vhd : valid h (hd fi a)).
+  { destruct a as [|y a']; cbn [hd]; [exact Vf|]. cbn [seg] in Sa. tauto. }
+  assert (Nhdc : hd fi a <> c) by (apply valid_neq_fresh; exact Vhd).
+  (* 2. the tail recorded at the head of the outer chain *)
+  split.
+  { destruct b as [|y b'].
+    - assert (Z : (nb =? 0) = true) by reflexivity.
+      rewrite R11, Z, N.eqb_refl. reflexivity.
+    - assert (Z : (nb =? 0) = false).
+      { apply N.eqb_neq. unfold nb. cbn [hd]. destruct (seg_valid _ _ _ _ _ Sb (or_introl eq_refl)); assumption. }
+      rdrw. rewrite Z. cbn [andb]. eqbs. rewrite Htl. f_equal. apply last_nonempty_default. discriminate. }
+  (* 3. child pointer *)
+  split; [rdeval; reflexivity|].
+  (* 4. the chain of children *)
+  split.
+  { cbn [seg]. split; [exact Vc|]. split; [rdeval; reflexivity|].
+    split; [rewrite hd_app_cons; fold nm; rdeval; rewrite <- Gf; exact Nf|].
+    apply seg_app. cbn [hd]. split.
+    - destruct m as [|y m']; [exact I|].
+      eapply seg_change_pv; [exact Sm| | | |].
+      + intros z _ Vz. apply VV, Vz.
+      + change y with nm. rdeval. reflexivity.
+      + destruct (Hm' y (or_introl eq_refl)) as (? & ? & ? & ?). rdeval. reflexivity.
+      + intros z Hz. destruct (Hm' z (or_intror Hz)) as (? & ? & ? & ?).
+        assert (z <> nm) by (unfold nm; cbn [hd]; intro X; rewrite X in Hz; inversion NDm; contradiction).
+        split; rdeval; reflexivity.
+    - cbn [seg]. split; [apply VV, Vl|]. split; [|split; [rdeval; reflexivity|exact I]].
+      destruct m as [|y m'].
+      + change la with nm at 1. cbn [List.last]. rdeval. reflexivity.
+      + assert (la <> nm) by (unfold nm; cbn [hd]; intro X; apply Lm; rewrite X; left; reflexivity).
+        rdeval. rewrite Pl. f_equal. apply last_nonempty_default. discriminate. }
+  (* 5. tail of the children, kind, start, length of the container *)
+  split; [rdeval; reflexivity|].
+  split; [rdeval; reflexivity|].
+  split; [rdeval; reflexivity|].
+  split.
+  { intros s l s0 Hs Hl Hs0. rdeval. congruence. }
+  (* 6. the first child is a copy of the old first token *)
+  split.
+  { intros g [ -> | [ -> | [ -> | -> ] ] ]; rdeval; rewrite Gf; reflexivity. }
+  (* 7. mates *)
+  destruct (N.eqb_spec mm 0) as [Zm|Zm].
+  - split; [rdeval; rewrite Hmt, Zm; reflexivity|].
+    split; [rdeval; rewrite <- Gf; exact Hmt|].
+    split; [intro X; contradiction|].
+    intros j g H1 H2 H3 H4 H5 H6 H7. rdeval. reflexivity.
+  - assert (Vm : valid h mm) by (destruct Hmm as [|[? _]]; [contradiction|assumption]).
+    assert (Nmf : mm <> fi) by (destruct Hmm as [|[_ ?]]; [contradiction|assumption]).
+    assert (Nmc : mm <> c) by (apply valid_neq_fresh; exact Vm).
+    split; [rdeval; reflexivity|].
+    split; [rdeval; rewrite <- Gf; exact Hmt|].
+    split; [intros _; rdeval; reflexivity|].
+    intros j g H1 H2 H3 H4 H5 H6 H7. rdeval. reflexivity.
+Qed.
+End Graft.
+
+(* ---- token_split(t, start, len, type): the span of t is cut into up to three tokens that tile it *)
+
+Section Split.
+Variables (h : heap) (p t : N) (l r : list N).
+Variables (ts tlen tty start len ntype : N).
+Hypothesis HS : seg h p (l ++ t :: r) 0.
+Hypothesis ND : NoDup (l ++ t :: r).
+Hypothesis Hst : rd h t Fst = Some ts.
+Hypothesis Hln : rd h t Fln = Some tlen.
+Hypothesis Hty : rd h t Fty = Some tty.
+Hypothesis NoWrap : ts + tlen < W.
+Hypothesis Inside1 : ts <= start.
+Hypothesis Inside2 : start + len <= ts + tlen.
+
+Let a := fresh h.
+Let a2 := fresh h + 1.
+Let nr := hd 0 r.
+
+Lemma split_pieces :
+  seg h p l t /\ valid h t /\ rd h t Fpv = Some (List.last l p) /\ rd h t Fnx = Some nr /\ seg h t r 0 /\
+  ~ In t l /\ ~ In t r /\ (nr <> 0 -> valid h nr /\ nr <> t) /\ (forall y, In y l -> y <> nr).
+Proof.
+  apply seg_app in HS. cbn [hd] in HS. destruct HS as [Sl S1]. cbn [seg] in S1. destruct S1 as (Vt & Pt & Nt & Sr).
+  apply nodup_mid in ND. destruct ND as (Tl & Tr & NDlr).
+  repeat (split; [assumption|]). split.
+  - intro Z. unfold nr in *. destruct r as [|y r']; cbn [hd] in *; [congruence|]. cbn [seg] in Sr.
+    split; [tauto|]. intro X. apply Tr. rewrite <- X. left; reflexivity.
+  - intros y Hy X. unfold nr in X. destruct r as [|z r']; cbn [hd] in X.
+    + pose proof (seg_valid _ _ _ _ _ Sl Hy) as [V0 _]. congruence.
+    + apply nodup_app in NDlr. destruct NDlr as (_ & _ & D). apply (D y Hy). rewrite X. left; reflexivity.
+Qed.
+
+(* both a leading and a trailing remainder: t -> [t' ; A ; T2] *)
+Theorem split_both :
+  ts < start -> start + len < ts + tlen ->
+  exists h', token_split h t start len ntype = Some h' /\ length h' = S (S (length h)) /\
+    seg h' p (l ++ t :: a :: a2 :: r) 0 /\
+    rd h' t Fst = Some ts /\ rd h' t Fln = Some (start - ts) /\ rd h' t Fty = Some tty /\
+    rd h' a Fst = Some start /\ rd h' a Fln = Some len /\ rd h' a Fty = Some ntype /\
+    rd h' a2 Fst = Some (start + len) /\ rd h' a2 Fln = Some (ts + tlen - (start + len)) /\ rd h' a2 Fty = Some tty /\
+    (forall j g, j <> t -> j <> nr -> j <> a -> j <> a2 -> rd h' j g = rd h j g).
+Proof.
+  intros B1 B2.
+  destruct split_pieces as (Sl & Vt & Pt & Nt & Sr & Tl & Tr & Vnr & Lnr).
+  assert (Nta : t <> a) by (apply valid_neq_fresh; exact Vt).
+  assert (Nta2 : t <> a2) by (unfold a2, fresh; destruct Vt; lia).
+  assert (Naa2 : a <> a2) by (unfold a, a2; lia).
+  unfold token_split.
+  destruct (N.eqb_spec t 0) as [Z|_]; [destruct Vt; contradiction|].
+  rewrite Hst, Hln. cbn [obind].
+  assert (E1 : wadd start len = start + len) by (apply wadd_small; lia).
+  assert (E2 : wadd ts tlen = ts + tlen) by (apply wadd_small; lia).
+  rewrite E1, E2.
+  destruct (N.ltb_spec start ts) as [X|_]; [lia|].
+  destruct (N.ltb_spec (ts + tlen) (start + len)) as [X|_]; [lia|].
+  destruct (N.ltb_spec ts start) as [_|X]; [|lia].
+  destruct (N.ltb_spec (start + len) (ts + tlen)) as [_|X]; [|lia].
+  unfold token_new at 1. cbn [fst snd]. fold a.
+  pose proof (rd_alloc h (mktk ntype start len 0 0 0 a 0)) as R0. fold a in R0.
+  assert (L0 : length (h ++ [mktk ntype start len 0 0 0 a 0]) = S (length h)) by (rewrite app_length; cbn; lia).
+  set (h0 := h ++ [mktk ntype start len 0 0 0 a 0]) in *.
+  replace (rd h0 t Fty) with (Some tty) by (rdeval; symmetry; exact Hty). cbn [obind].
+  unfold token_new at 1. cbn [fst snd].
+  assert (F0 : fresh h0 = a2) by (unfold a2, fresh, Nlen; rewrite L0; lia).
+  rewrite F0.
+  pose proof (rd_alloc h0 (mktk tty (start + len) (wsub (ts + tlen) (start + len)) 0 0 0 a2 0)) as R0'. rewrite F0 in R0'.
+  assert (L0' : length (h0 ++ [mktk tty (start + len) (wsub (ts + tlen) (start + len)) 0 0 0 a2 0]) = S (S (length h))) by (rewrite app_length; cbn; lia).
+  set (h0' := h0 ++ [mktk tty (start + len) (wsub (ts + tlen) (start + len)) 0 0 0 a2 0]) in *.
+  replace (rd h0' t Fnx) with (Some nr) by (rdeval; symmetry; exact Nt). cbn [obind].
+  assert (Va : valid h0' a) by (unfold a; vld).
+  assert (Va2 : valid h0' a2) by (unfold a2; vld).
+  assert (Vt' : valid h0' t) by vld.
+  wr_step h1 L1 R1; [exact Va2|].
+  destruct (opt_wr (nr =? 0) h1 nr Fpv a2) as (h2 & E & L2 & R2).
+  { intro Z. apply N.eqb_neq in Z. destruct (Vnr Z) as [V _]. vld. }
+  rewrite E. cbn [obind]. clear E.
+  wr_step h3 L3 R3; [vld|].
+  wr_step h4 L4 R4; [vld|].
+  wr_step h5 L5 R5; [vld|].
+  wr_step h6 L6 R6; [vld|].
+  wr_step h7 L7 R7; [vld|].
+  exists h7. split; [reflexivity|]. split; [vld|].
+  assert (VV : forall y, valid h y -> valid h7 y) by (intros y Vy; vld).
+  assert (Nnra : nr <> 0 -> nr <> a /\ nr <> a2).
+  { intro Z. destruct (Vnr Z) as [V _]. split; [apply valid_neq_fresh; exact V|unfold a2, fresh; destruct V; lia]. }
+  assert (Ntnr : t <> nr).
+  { destruct (N.eq_dec nr 0) as [Z|Z]; [rewrite Z; destruct Vt; assumption|]. destruct (Vnr Z) as [_ ?]. apply not_eq_sym. assumption. }
+  Ltac fin := rdeval; cbn [getf kty kst kln knx kpv kch ktl kmt]; try reflexivity.
+  split.
+  { apply seg_app. cbn [hd]. split.
+    - eapply seg_frame; [| |exact Sl]; [intros y _ Vy; apply VV, Vy|].
+      intros y Hy. pose proof (seg_valid _ _ _ _ _ Sl Hy) as Vy.
+      assert (y <> t) by (intro X; rewrite X in Hy; contradiction).
+      assert (y <> a) by (apply valid_neq_fresh; exact Vy).
+      assert (y <> a2) by (unfold a2, fresh; destruct Vy; lia).
+      pose proof (Lnr y Hy). split; fin.
+    - cbn [seg]. split; [apply VV, Vt|]. split; [fin; exact Pt|]. split; [fin|].
+      split; [vld|]. split; [fin|]. split; [fin|].
+      split; [unfold a2, fresh; vld|]. split; [fin|]. split; [fin; fold nr; reflexivity|].
+      destruct r as [|y r']; [exact I|].
+      assert (Z : nr <> 0) by (unfold nr; cbn [hd]; destruct (seg_valid _ _ _ _ _ Sr (or_introl eq_refl)); assumption).
+      destruct (Nnra Z). destruct (Vnr Z) as [_ ?].
+      eapply seg_change_pv; [exact Sr| | | |].
+      + intros z _ Vz. apply VV, Vz.
+      + change y with nr. rdrw. rewrite (proj2 (N.eqb_neq nr 0) Z). eqbs. reflexivity.
+      + change y with nr. fin.
+      + intros z Hz. pose proof (seg_valid _ _ _ _ _ Sr (or_intror Hz)) as Vz.
+        assert (z <> t) by (intro X; apply Tr; rewrite <- X; right; exact Hz).
+        assert (z <> a) by (apply valid_neq_fresh; exact Vz).
+        assert (z <> a2) by (unfold a2, fresh; destruct Vz; lia).
+        assert (z <> nr).
+        { unfold nr; cbn [hd]. intro X. apply nodup_mid in ND. destruct ND as (_ & _ & NDlr). apply nodup_app in NDlr.
+          destruct NDlr as (_ & NDr & _). inversion NDr. subst. contradiction. }
+        split; fin. }
+  assert (Na2a : a2 <> a) by (apply not_eq_sym; exact Naa2).
+  split; [fin; exact Hst|].
+  split; [fin; f_equal; apply wsub_small; lia|].
+  split; [fin; exact Hty|].
+  split; [fin|]. split; [fin|]. split; [fin|].
+  split; [fin|]. split; [fin; f_equal; apply wsub_small; lia|]. split; [fin|].
+  intros j g H1 H2 H3 H4. fin.
+Qed.
+
+(* only a leading remainder: t -> [t' ; A] *)
+Theorem split_start :
+  ts < start -> start + len = ts + tlen ->
+  exists h', token_split h t start len ntype = Some h' /\ length h' = S (length h) /\
+    seg h' p (l ++ t :: a :: r) 0 /\
+    rd h' t Fst = Some ts /\ rd h' t Fln = Some (start - ts) /\ rd h' t Fty = Some tty /\
+    rd h' a Fst = Some start /\ rd h' a Fln = Some len /\ rd h' a Fty = Some ntype /\
+    (forall j g, j <> t -> j <> nr -> j <> a -> rd h' j g = rd h j g).
+Proof.
+  intros B1 B2.
+  destruct split_pieces as (Sl & Vt & Pt & Nt & Sr & Tl & Tr & Vnr & Lnr).
+  assert (Nta : t <> a) by (apply valid_neq_fresh; exact Vt).
+  unfold token_split.
+  destruct (N.eqb_spec t 0) as [Z|_]; [destruct Vt; contradiction|].
+  rewrite Hst, Hln. cbn [obind].
+  assert (E1 : wadd start len = start + len) by (apply wadd_small; lia).
+  assert (E2 : wadd ts tlen = ts + tlen) by (apply wadd_small; lia).
+  rewrite E1, E2.
+  destruct (N.ltb_spec start ts) as [X|_]; [lia|].
+  destruct (N.ltb_spec (ts + tlen) (start + len)) as [X|_]; [lia|].
+  destruct (N.ltb_spec ts start) as [_|X]; [|lia].
+  destruct (N.ltb_spec (start + len) (ts + tlen)) as [X|_]; [lia|].
+  unfold token_new at 1. cbn [fst snd]. fold a.
+  pose proof (rd_alloc h (mktk ntype start len 0 0 0 a 0)) as R0. fold a in R0.
+  assert (L0 : length (h ++ [mktk ntype start len 0 0 0 a 0]) = S (length h)) by (rewrite app_length; cbn; lia).
+  set (h0 := h ++ [mktk ntype start len 0 0 0 a 0]) in *.
+  replace (rd h0 t Fnx) with (Some nr) by (rdeval; symmetry; exact Nt). cbn [obind].
+  assert (Va : valid h0 a) by (unfold a; vld).
+  assert (Ntnr : t <> nr).
+  { destruct (N.eq_dec nr 0) as [Z|Z]; [rewrite Z; destruct Vt; assumption|]. destruct (Vnr Z) as [_ ?]. apply not_eq_sym. assumption. }
+  assert (Nnra : nr <> 0 -> nr <> a) by (intro Z; destruct (Vnr Z) as [V _]; apply valid_neq_fresh; exact V).
+  assert (Nanr : a <> nr).
+  { destruct (N.eq_dec nr 0) as [Z|Z]; [rewrite Z; unfold a, fresh; lia|]. apply not_eq_sym, Nnra, Z. }
+  wr_step h1 L1 R1; [exact Va|].
+  destruct (opt_wr (nr =? 0) h1 nr Fpv a) as (h2 & E & L2 & R2).
+  { intro Z. apply N.eqb_neq in Z. destruct (Vnr Z) as [V _]. vld. }
+  rewrite E. cbn [obind]. clear E.
+  wr_step h3 L3 R3; [vld|].
+  wr_step h4 L4 R4; [vld|].
+  wr_step h5 L5 R5; [vld|].
+  exists h5. split; [reflexivity|]. split; [vld|].
+  assert (VV : forall y, valid h y -> valid h5 y) by (intros y Vy; vld).
+  split.
+  { apply seg_app. cbn [hd]. split.
+    - eapply seg_frame; [| |exact Sl]; [intros y _ Vy; apply VV, Vy|].
+      intros y Hy. pose proof (seg_valid _ _ _ _ _ Sl Hy) as Vy.
+      assert (y <> t) by (intro X; rewrite X in Hy; contradiction).
+      assert (y <> a) by (apply valid_neq_fresh; exact Vy).
+      pose proof (Lnr y Hy). split; fin.
+    - cbn [seg]. split; [apply VV, Vt|]. split; [fin; exact Pt|]. split; [fin|].
+      split; [vld|]. split; [fin|]. split; [fin; fold nr; reflexivity|].
+      destruct r as [|y r']; [exact I|].
+      assert (Z : nr <> 0) by (unfold nr; cbn [hd]; destruct (seg_valid _ _ _ _ _ Sr (or_introl eq_refl)); assumption).
+      pose proof (Nnra Z). destruct (Vnr Z) as [_ ?].
+      eapply seg_change_pv; [exact Sr| | | |].
+      + intros z _ Vz. apply VV, Vz.
+      + change y with nr. rdrw. rewrite (proj2 (N.eqb_neq nr 0) Z). eqbs. reflexivity.
+      + change y with nr. fin.
+      + intros z Hz. pose proof (seg_valid _ _ _ _ _ Sr (or_intror Hz)) as Vz.
+        assert (z <> t) by (intro X; apply Tr; rewrite <- X; right; exact Hz).
+        assert (z <> a) by (apply valid_neq_fresh; exact Vz).
+        assert (z <> nr).
+        { unfold nr; cbn [hd]. intro X. apply nodup_mid in ND. destruct ND as (_ & _ & NDlr). apply nodup_app in NDlr.
+          destruct NDlr as (_ & NDr & _). inversion NDr. subst. contradiction. }
+        split; fin. }
+  split; [fin; exact Hst|].
+  split; [fin; f_equal; apply wsub_small; lia|].
+  split; [fin; exact Hty|].
+  split; [fin|]. split; [fin|]. split; [fin|].
+  intros j g H1 H2 H3. fin.
+Qed.
+
+(* only a trailing remainder: t keeps the head (with the new kind), A is the rest (with the old kind) *)
+Theorem split_stop :
+  ts = start -> start + len < ts + tlen ->
+  exists h', token_split h t start len ntype = Some h' /\ length h' = S (length h) /\
+    seg h' p (l ++ t :: a :: r) 0 /\
+    rd h' t Fst = Some ts /\ rd h' t Fln = Some len /\ rd h' t Fty = Some ntype /\
+    rd h' a Fst = Some (start + len) /\ rd h' a Fln = Some (ts + tlen - (start + len)) /\ rd h' a Fty = Some tty /\
+    (forall j g, j <> t -> j <> nr -> j <> a -> rd h' j g = rd h j g).
+Proof.
+  intros B1 B2.
+  destruct split_pieces as (Sl & Vt & Pt & Nt & Sr & Tl & Tr & Vnr & Lnr).
+  assert (Nta : t <> a) by (apply valid_neq_fresh; exact Vt).
+  unfold token_split.
+  destruct (N.eqb_spec t 0) as [Z|_]; [destruct Vt; contradiction|].
+  rewrite Hst, Hln. cbn [obind].
+  assert (E1 : wadd start len = start + len) by (apply wadd_small; lia).
+  assert (E2 : wadd ts tlen = ts + tlen) by (apply wadd_small; lia).
+  rewrite E1, E2.
+  destruct (N.ltb_spec start ts) as [X|_]; [lia|].
+  destruct (N.ltb_spec (ts + tlen) (start + len)) as [X|_]; [lia|].
+  destruct (N.ltb_spec ts start) as [X|_]; [lia|].
+  destruct (N.ltb_spec (start + len) (ts + tlen)) as [_|X]; [|lia].
+  rewrite Hty. cbn [obind].
+  unfold token_new at 1. cbn [fst snd]. fold a.
+  pose proof (rd_alloc h (mktk tty (start + len) (wsub (ts + tlen) (start + len)) 0 0 0 a 0)) as R0. fold a in R0.
+  assert (L0 : length (h ++ [mktk tty (start + len) (wsub (ts + tlen) (start + len)) 0 0 0 a 0]) = S (length h)) by (rewrite app_length; cbn; lia).
+  set (h0 := h ++ [mktk tty (start + len) (wsub (ts + tlen) (start + len)) 0 0 0 a 0]) in *.
+  assert (Va : valid h0 a) by (unfold a; vld).
+  assert (Ntnr : t <> nr).
+  { destruct (N.eq_dec nr 0) as [Z|Z]; [rewrite Z; destruct Vt; assumption|]. destruct (Vnr Z) as [_ ?]. apply not_eq_sym. assumption. }
+  assert (Nnra : nr <> 0 -> nr <> a) by (intro Z; destruct (Vnr Z) as [V _]; apply valid_neq_fresh; exact V).
+  assert (Nanr : a <> nr).
+  { destruct (N.eq_dec nr 0) as [Z|Z]; [rewrite Z; unfold a, fresh; lia|]. apply not_eq_sym, Nnra, Z. }
+  wr_step h1 L1 R1; [exact Va|].
+  replace (rd h1 t Fnx) with (Some nr) by (rdeval; symmetry; exact Nt). cbn [obind].
+  wr_step h2 L2 R2; [vld|].
+  wr_step h3 L3 R3; [vld|].
+  replace (rd h3 a Fnx) with (Some nr) by (rdeval; reflexivity). cbn [obind].
+  destruct (opt_wr (nr =? 0) h3 nr Fpv a) as (h4 & E & L4 & R4).
+  { intro Z. apply N.eqb_neq in Z. destruct (Vnr Z) as [V _]. vld. }
+  rewrite E. cbn [obind]. clear E.
+  wr_step h5 L5 R5; [vld|].
+  wr_step h6 L6 R6; [vld|].
+  exists h6. split; [reflexivity|]. split; [vld|].
+  assert (VV : forall y, valid h y -> valid h6 y) by (intros y Vy; vld).
+  split.
+  { apply seg_app. cbn [hd]. split.
+    - eapply seg_frame; [| |exact Sl]; [intros y _ Vy; apply VV, Vy|].
+      intros y Hy. pose proof (seg_valid _ _ _ _ _ Sl Hy) as Vy.
+      assert (y <> t) by (intro X; rewrite X in Hy; contradiction).
+      assert (y <> a) by (apply valid_neq_fresh; exact Vy).
+      pose proof (Lnr y Hy). split; fin.
+    - cbn [seg]. split; [apply VV, Vt|]. split; [fin; exact Pt|]. split; [fin|].
+      split; [vld|]. split; [fin|]. split; [fin; fold nr; reflexivity|].
+      destruct r as [|y r']; [exact I|].
+      assert (Z : nr <> 0) by (unfold nr; cbn [hd]; destruct (seg_valid _ _ _ _ _ Sr (or_introl eq_refl)); assumption).
+      pose proof (Nnra Z). destruct (Vnr Z) as [_ ?].
+      eapply seg_change_pv; [exact Sr| | | |].
+      + intros z _ Vz. apply VV, Vz.
+      + change y with nr. rdrw. rewrite (proj2 (N.eqb_neq nr 0) Z). eqbs. reflexivity.
+      + change y with nr. fin.
+      + intros z Hz. pose proof (seg_valid _ _ _ _ _ Sr (or_intror Hz)) as Vz.
+        assert (z <> t) by (intro X; apply Tr; rewrite <- X; right; exact Hz).
+        assert (z <> a) by (apply valid_neq_fresh; exact Vz).
+        assert (z <> nr).
+        { unfold nr; cbn [hd]. intro X. apply nodup_mid in ND. destruct ND as (_ & _ & NDlr). apply nodup_app in NDlr.
+          destruct NDlr as (_ & NDr & _). inversion NDr. subst. contradiction. }
+        split; fin. }
+  split; [fin; exact Hst|].
+  split; [fin; f_equal; rewrite wsub_small by lia; lia|].
+  split; [fin|].
+  split; [fin|]. split; [fin; f_equal; apply wsub_small; lia|]. split; [fin|].
+  intros j g H1 H2 H3. fin.
+Qed.
+
+(* the requested range is the whole token: only the kind changes *)
+Theorem split_none :
+  ts = start -> start + len = ts + tlen ->
+  exists h', token_split h t start len ntype = Some h' /\ length h' = length h /\
+    rd h' t Fty = Some ntype /\ (forall j g, ~ (j = t /\ g = Fty) -> rd h' j g = rd h j g).
+Proof.
+  intros B1 B2.
+  destruct split_pieces as (Sl & Vt & Pt & Nt & Sr & Tl & Tr & Vnr & Lnr).
+  unfold token_split.
+  destruct (N.eqb_spec t 0) as [Z|_]; [destruct Vt; contradiction|].
+  rewrite Hst, Hln. cbn [obind].
+  assert (E1 : wadd start len = start + len) by (apply wadd_small; lia).
+  assert (E2 : wadd ts tlen = ts + tlen) by (apply wadd_small; lia).
+  rewrite E1, E2.
+  destruct (N.ltb_spec start ts) as [X|_]; [lia|].
+  destruct (N.ltb_spec (ts + tlen) (start + len)) as [X|_]; [lia|].
+  destruct (N.ltb_spec ts start) as [X|_]; [lia|].
+  destruct (N.ltb_spec (start + len) (ts + tlen)) as [X|_]; [lia|].
+  wr_step h1 L1 R1; [exact Vt|].
+  exists h1. split; [reflexivity|]. split; [exact L1|]. split; [fin|].
+  intros j g F. rdrw. rewrite if_not by exact F. reflexivity.
+Qed.
+
+(* a range that is not inside the token leaves everything as it is *)
+Theorem split_outside :
+  start < ts \/ ts + tlen < start + len -> start + len < W -> token_split h t start len ntype = Some h.
+Proof.
+  intros B NW.
+  destruct split_pieces as (Sl & Vt & _).
+  unfold token_split.
+  destruct (N.eqb_spec t 0) as [Z|_]; [destruct Vt; contradiction|].
+  rewrite Hst, Hln. cbn [obind].
+  assert (E1 : wadd start len = start + len) by (apply wadd_small; lia).
+  assert (E2 : wadd ts tlen = ts + tlen) by (apply wadd_small; lia).
+  rewrite E1, E2.
+  destruct (N.ltb_spec start ts) as [X|X]; [reflexivity|].
+  destruct (N.ltb_spec (ts + tlen) (start + len)) as [Y|Y]; [reflexivity|]. lia.
+Qed.
+
+
+End Split.
